@@ -28,10 +28,11 @@ REGISTRY: Dict[str, 'ContractInfo'] = {}
 
 
 class ContractInfo:
-    def __init__(self, pycls, target, props, name, use_at_calls, bounded, const=None, assumed=None):
+    def __init__(self, pycls, target, props, name, use_at_calls, bounded, const=None, assumed=None, local=False):
         self.pycls, self.target, self.props, self.name = pycls, target, tuple(props), name or pycls.__name__
         self.const = const          # data invariant on a module constant (target is None)
         self.assumed = assumed      # text of the assumption: the contract is used at call sites but NOT verified (trusted)
+        self.local = local          # a summary that replaces calls only inside contracts that list it in `uses`
         self.kind = 'function' if target else ('const' if const else 'lemma')
         self.use_at_calls = use_at_calls
         self.bounded = bounded
@@ -42,9 +43,9 @@ class ContractInfo:
         return name in vars(self.pycls)
 
 
-def contract(target: str, props=(), name=None, use_at_calls=None, bounded=None, const=None, assumed=None):
+def contract(target: str, props=(), name=None, use_at_calls=None, bounded=None, const=None, assumed=None, local=False):
     def deco(pycls):
-        ci = ContractInfo(pycls, target, props, name, use_at_calls, bounded, const, assumed)
+        ci = ContractInfo(pycls, target, props, name, use_at_calls, bounded, const, assumed, local)
         key = ci.name
         if key in REGISTRY:
             raise RuntimeError(f'duplicate contract name {key}')
@@ -471,13 +472,12 @@ class Registry:
 
     def __init__(self, index):
         self.index = index
-        self.by_target: Dict[str, ContractInfo] = {}
+        self.by_target: Dict[str, list] = {}
         for ci in REGISTRY.values():
             if ci.target and ci.use_at_calls is not False and (ci.has('model') or ci.has('result') or ci.assumed):
-                if ci.target in self.by_target and ci.use_at_calls is None:
-                    continue
-                self.by_target[ci.target] = ci
+                self.by_target.setdefault(ci.target, []).append(ci)
         self.disabled = set()
+        self.current_uses = ()      # names of the local summaries the contract under verification asks for
 
     def classinfo(self, ci: ContractInfo) -> ClassInfo:
         return self.index.modules[ci.module_name].classes[ci.pycls.__name__]
@@ -486,10 +486,16 @@ class Registry:
         return self.classinfo(ci).methods.get(name)
 
     def for_call(self, qualname):
-        ci = self.by_target.get(qualname)
-        if ci is not None and ci.name in self.disabled:
+        cands = self.by_target.get(qualname)
+        if not cands:
             return None
-        return ci
+        for ci in cands:                      # a local summary the current contract asked for takes precedence
+            if ci.local and ci.name in self.current_uses and ci.name not in self.disabled:
+                return ci
+        for ci in cands:
+            if not ci.local and ci.name not in self.disabled:
+                return ci
+        return None
 
     def call_clause(self, I, ci: ContractInfo, name, values: dict):
         f = self.method(ci, name)
